@@ -81,7 +81,9 @@ fn main() {
             }
             _ => {}
         }
-        std::process::exit(1);
+        // the exit status of a failing command: 1 unless the plan says otherwise (docker uses 125 for errors of the
+        // daemon, 126 / 127 for a command that cannot be invoked)
+        std::process::exit(plan["exit_code"].as_i64().and_then(|c| i32::try_from(c).ok()).unwrap_or(1));
     }
     let sub = args.get(1).map(|a| a.to_string_lossy().to_string()).unwrap_or_default();
     match (prog.as_str(), sub.as_str()) {
